@@ -15,7 +15,7 @@ ALL = [f"C{i:02d}" for i in range(1, 21)]
 def hook_commits():
     try:
         out = subprocess.run(["git", "-C", "/repo", "log", "--format=%H %s"], capture_output=True, text=True).stdout
-        return [ln.split()[0] for ln in out.splitlines() if " verif hooks" in ln]
+        return [ln.split()[0] for ln in out.splitlines() if " verif hook" in ln or ln.split(" ", 1)[1].startswith("verif hook")]
     except Exception:
         return []
 
